@@ -35,7 +35,7 @@ CLAIMS = {
         "text": "TLA+ contract of HTTP routing (HttpRouter.tla: RouteSpec = lexicographically first entry whose host (port stripped), path (exact/prefix/regexp), method and header conditions match, "
                 "rewrite per mode, else 400 > 405 > 404, unknown backend 503; strings as character sequences, Strings.tla) and an implementation-shaped Search (two loops, two mismatch flags); TLC checks "
                 "the refinement for all rule sets over a template universe x 180 requests (incl. method tokens no configuration can list - PURGE, lower-case get - and decoded paths with a %XX sequence left); TLC-generated behaviours are replayed on the real mux (cacheSize 0) and seeded random richer configurations "
-                "(longer paths, up to 4x4 entries, sibling entries for one URL, ports, IPv6 hosts, non-standard request methods, percent sequences in paths and rewrite targets) run on the real mux are judged by TLC against the contract.",
+                "(longer paths, up to 4x4 entries, sibling entries for one URL, ports, IPv6 hosts, non-standard request methods, percent sequences in paths and rewrite targets) run on the real mux are judged by TLC against the contract. At most one step per generated behaviour deletes the backend that has just served a request from the mapper (no reload): later requests routed to it must get 503.",
         "note": "regexps of the family ^?lit(.*)?$? (what the code does with them: unanchored match, $1 replacement); in-process mux.ServeHTTP; HTTP/3 stubbed; acme-challenge bypass excluded",
         "technique": "TLA+ spec + TLC refinement check; model-based test generation (TLC -simulate) replayed on the real mux; TLC trace validation",
     },
@@ -43,7 +43,7 @@ CLAIMS = {
         "text": "IPFilter.tla: Denied as the contract, AllowImpl/chain as implementation layer, exhaustive at width 2 with two address families; every decision vector replayed on the real IPFilter and random "
                 "real v4/v6 addresses and CIDRs (bits computed independently with net/netip) validated by TLC. Mux level (HttpRouter.tla): (i) a client denied by the server, owning-rule or route filter "
                 "gets 4xx (403 if the route exists) and is never dispatched, (ii) a client allowed everywhere is routed as without filters, with and without the cache and after any history incl. evictions, "
-                "(iii) a client denied only by the filter of a host-matching rule passed over on the way to its route reaches a backend with the cache and after any history iff it does on the cache-less server - model-checked; TLC behaviours replayed on four real muxes (filters / filter-less twin x cache off / on); random traces (clients via RemoteAddr, X-Forwarded-For, X-Real-IP) validated by TLC.",
+                "(iii) a client denied only by the filter of a host-matching rule passed over on the way to its route reaches a backend with the cache and after any history iff it does on the cache-less server - model-checked; TLC behaviours replayed on four real muxes (filters / filter-less twin x cache off / on); random traces (clients via RemoteAddr, X-Forwarded-For, X-Real-IP) validated by TLC. The decision table is also exhaustive at width 3 for filters holding two same-size nets (siblings / adjacent non-siblings / apart) in one list; clients arrive via RemoteAddr, X-Forwarded-For or X-Real-IP alone, or as the only public address among private / loopback / link-local proxy hops (req.via).",
         "note": "unambiguous client address only (realip's choice among several forwarded addresses is third-party); a client denied only by a filter of a rule or entry the request does not match may get 403 or be routed",
         "technique": "TLA+ spec + TLC model checking (exhaustive decision table, refinement with cache and evictions); TLC vectors/behaviours replayed on the real code; TLC trace validation",
     },
@@ -51,7 +51,7 @@ CLAIMS = {
         "text": "HttpRouter.tla with the route cache: Request (hit branch, insertions), Evict (any entry at any time - a sound abstraction of ARC), Purge; property Transparent: every outcome with the cache equals "
                 "the cache-less reference, for every history; TLC proves it for the repaired cache design and refutes it for the pinned one (four defect classes, all reproduced on the real mux and repaired). "
                 "TLC-generated histories (requests biased towards key neighbours: same key, colliding split, other host spelling, other method only; focus universes with method-restricted / header-conditioned / unrestricted sibling entries for one URL) and random 20-200-request traces run on twin real muxes (cacheSize 1, 2, 3, 64 vs 0) "
-                "and are judged against TLC's reference.",
+                "and are judged against TLC's reference. Focus universes also for rewrite targets with requests for the rewritten URL and for one entry reached from two hosts by different ways (one through a filtered rule).",
         "note": "ARC abstracted to arbitrary eviction; if the cache-less mux itself departs from the reference the run is inconclusive (that is C01), not a C12 violation",
         "technique": "TLA+ spec + TLC model checking; model-based histories (TLC -simulate) replayed on twin real muxes; TLC trace validation",
     },
@@ -59,7 +59,7 @@ CLAIMS = {
         "text": "TLA+ contract of the cluster lock (ClusterMutexContract) and an implementation-shaped model of mutex.go over etcd's lock recipe (key per member lease generation, per-object local lock, time-outs, lease re-grant after a failed keep-alive with the session kept): TLC checks "
                 "Mutex, NoResidue, termination under fairness and refinement. TLA+ contract of admin-API mutations (atomic, gap-free versions, 409/400, refusals modify nothing); a per-etcd-operation model "
                 "refines it under the lock (not without it, nor with a prefix delete over nested object names sv < svc < svc-canary, which generator, trace and harness use). TLC-generated request histories are replayed on real api.Servers of two members on an embedded etcd; recorded concurrent Lock/Unlock histories "
-                "(2-3 members plus a member whose lease keep-alive is made to fail while it holds the lock, handles obtained per call, injected etcd latency, time-outs) and concurrent admin-API histories are validated by TLC as linearisable with the versions pinned.",
+                "(2-3 members plus a member whose lease keep-alive is made to fail while it holds the lock, handles obtained per call, injected etcd latency, time-outs) and concurrent admin-API histories are validated by TLC as linearisable with the versions pinned. Model parameters LocalWaitTimeout and EvictOnUnlock both refute Mutex; recorded scenarios include same-member time-outs and kept vs per-call handles on one member.",
         "note": "etcd's lock recipe and leases trusted; lease expiry/revocation while holding not reproduced; failed keep-alive (re-grant) reproduced; mock supervisor with two test kinds; 5xx replies admitted as no-ops",
         "technique": "TLA+ spec + TLC model checking (refinement, liveness); model-based tests (TLC -simulate) on real servers; TLC trace validation (linearisation search)",
     },
@@ -67,7 +67,7 @@ CLAIMS = {
         "text": "TLA+ model of syncer.run (first pull, watch pull, ticker pull, compare, blocking send, cancelled watch, server restart): TLC checks RealStates, Monotone, Distinct, FirstIsCurrent and Converges as a "
                 "temporal property under fairness (violated without the ticker). Recorded histories of real syncers (Sync, SyncRaw, SyncPrefix, SyncRawPrefix; fast, slow and stalling consumers) on an embedded "
                 "etcd with server restarts and compaction-cancelled watches are validated by TLC against the contract; the store history is rebuilt from the writer's inv/ret events; convergence is checked "
-                "as a bounded-deadline claim; exactness and atomicity of the pull are model parameters (a wider pull violates Distinct, an unpinned two-page pull violates RealStates); histories include a sibling key having the watched key as name prefix and 1300-key prefixes with never-repeated values and back-to-back multi-key transactions.",
+                "as a bounded-deadline claim; exactness and atomicity of the pull are model parameters (a wider pull violates Distinct, an unpinned two-page pull violates RealStates); histories include a sibling key having the watched key as name prefix and 1300-key prefixes with never-repeated values and back-to-back multi-key transactions. Model parameters StaleGuard (refutes Converges) and ResyncAfter (refutes Distinct); histories end with operations chosen by key modification order (delete newest / oldest, same-value put, recreate); outages of three or more consecutive failed pulls with unchanged content (real server stop and request failures injected at a member's etcd client).",
         "note": "the consumer's view starts empty (an initially empty prefix needs no delivery); 40 s convergence deadline at a 200 ms pull interval; no writes while the server is down; etcd reads atomic",
         "technique": "TLA+ spec + TLC model checking incl. liveness; TLC trace validation of recorded executions",
     },
@@ -76,7 +76,7 @@ CLAIMS = {
                 "acceptor and release-once close (specs/ConnCap.tla), model-checked; refinement shown for the ordered-tuner code and refuted for unordered tuners (the defect that was repaired). TLC schedules "
                 "executed on the real LimitListener and Semaphore with the background adjustments ordered through the sem.resize gate (hook H1); concurrent histories of the real Semaphore, LimitListener and "
                 "HTTPServer runtime (maxConnections changed by reload, raw clients, half-close) validated by TLC against the contract with a conservative open counter; schedules and overlap cases include bursts of cap changes on a full server covering every sequence of call kinds (grow, shrink, shrink below usage, same value). MQTT half (specs/MqttConnCap*.tla): "
-                "connect / takeover / disconnect histories of a real Broker with raw clients validated by TLC (never more than maxAllowedConnection registered clients; refusals are server-unavailable; attempts parked in the Connect pipeline between the early check and registration).",
+                "connect / takeover / disconnect histories of a real Broker with raw clients validated by TLC (never more than maxAllowedConnection registered clients; refusals are server-unavailable; attempts parked in the Connect pipeline between the early check and registration). Connections closed by two Close calls that really overlap inside a slow close of the underlying connection (the slot comes back exactly once); server level also executes TLC-generated reload sequences mixing run-time cap changes with restarting reloads, the resulting cap probed with cap+1 clients.",
         "note": "a change counts as applied when SetMaxCount's done channel closes; at server level completion is assumed after a settle time and re-checked at 5x; HTTP/3 not covered; Go scheduler explored "
                 "by stress plus gate, not exhaustively",
         "technique": "TLA+ spec + TLC model checking (refinement); TLC-generated schedules replayed on the real code through a scheduling gate; TLC trace validation",
@@ -84,7 +84,7 @@ CLAIMS = {
     "C04": {
         "text": "TLA+ contract of the pool as load balancer (LoadBalance.tla: generations of the server list incl. discovery with static fallback, least-chosen rule for roundRobin, per-generation stickiness, "
                 "positive-weight rule, nil iff empty) model-checked with all clauses as invariants; an implementation-shaped layer (atomic.Value, fetch-add, hash mod n, weighted walk) is checked to refine it. "
-                "TLC-generated behaviours (incl. requests held between the load of the pool's balancer and the choice across list replacements, and round-robin balancers that have already served 2^b-d selections, b <= 62), random pools, concurrent selector/watcher histories (linearisation by TLC) and 8-goroutine bursts (also across a power of two) of the real Proxy are validated by TLC against the contract; thorough tier: Apalache discharges the inductive fairness invariant of round robin for an unbounded number of selections (N = 2..5).",
+                "TLC-generated behaviours (incl. requests held between the load of the pool's balancer and the choice across list replacements, and round-robin balancers that have already served 2^b-d selections, b <= 62), random pools, concurrent selector/watcher histories (linearisation by TLC) and 8-goroutine bursts (also across a power of two) of the real Proxy are validated by TLC against the contract; thorough tier: Apalache discharges the inductive fairness invariant of round robin for an unbounded number of selections (N = 2..5). Pools with a retry policy (LoadBalanceRetry.tla: every attempt of a request is a selection in the list current at that attempt, failed for lack of a server only on an empty list; retry of a hashed key sticky) are model-checked and exercised with scripted failing attempts (one server, hash policies, more attempts than servers, replacements between attempts).",
         "note": "discovery played by calling useService; stickiness per list generation; k < 2^63 (aged state obtained by advancing the balancer's verified free-running counter); Go scheduler explored by barrier rounds and stress (+ -race in thorough), not exhaustively",
         "technique": "TLA+ spec + TLC model checking + refinement; TLC -simulate MBT; TLC trace validation with linearisation search",
     },
@@ -99,7 +99,7 @@ CLAIMS = {
         "text": "TLA+ contract of Validator.Handle over abstract credential records (specs/Validator.tla: Accept = every enabled method valid; single-mutation theorem; exp/nbf/iat against a clock; ETCD "
                 "credential snapshots; hot updates = new generation built with Inherit: JWT secret/algorithm rotated, access keys removed/re-keyed, Basic users changed, methods dropped/added; access-key classes incl. empty id / empty secret), model-checked by TLC; every (configuration x record) vector is enumerated by TLC and concretised >= 3x on the real filter through wire format + httpprot.NewRequest + "
                 "FetchPayload (independent HMAC JWT issuer; repository signer as client, mutated after signing; harness-written htpasswd / etcd snapshots); all logged cases are validated by TLC as a trace; "
-                "an implementation-shaped layer is checked to refine the contract.",
+                "an implementation-shaped layer is checked to refine the contract. Basic users include one whose password begins/ends with white space; presented classes include credentials differing from configured ones only by leading/trailing ASCII/Unicode white space, in both directions.",
         "note": "MAC strength, golang-jwt and go-htpasswd trusted; signature TTL uses time.Now() so ages are chosen >= 20 min off the boundary; OAuth2, FILE-mode reload, Host default port and tab-padded "
                 "header values are outside; a hot update is atomic for requests; outcomes the text leaves open are free",
         "technique": "TLA+ spec + TLC model checking; TLC vector enumeration (-dump) and -simulate behaviours replayed on the real code; TLC trace validation",
@@ -108,7 +108,7 @@ CLAIMS = {
         "text": "TLA+ contract of the limiter (reservation table per refresh cycle; per-period release bound, wait <= timeout, immediate when spare, rejected only with a full horizon) with the (cycle, tokens) "
                 "arithmetic of acquirePermission / MultiRateLimiter as implementation-shaped layer refining it, model-checked; MQTT request+byte form as carried debt with the window bound; MultiRateLimiter with timeout > 0: wait bound; filter spec "
                 "(first matching rule, unmatched never limited, 429/rateLimited, unchanged rule keeps its limiter across Inherit incl. defaulted policies). TLC-generated behaviours replayed on the real "
-                "limiters/filter; seeded sequential, concurrent (linearisation) and MQTT histories of the real code validated by TLC.",
+                "limiters/filter; seeded sequential, concurrent (linearisation) and MQTT histories of the real code validated by TLC. Filter URL rules include regular-expression and empty patterns and method lists; an unchanged rule must keep matching across Inherit.",
         "note": "virtual clock via ratelimiter.nowFunc; filter replay at the start of the first cycle (1 h period or measured < 8 ms) with cancelled request contexts; mqttproxy limiter clock moved via private "
                 "startTime with real-clock brackets; MultiRateLimiter: all clauses for timeout 0 (the only way easegress builds it); with timeout > 0 only the reply-level clause wait <= timeoutDuration is checked (the unchanged code can release more than L per period there: lead outside the quantifier); Apalache inductive invariant is extra, not verdict-bearing",
         "technique": "TLA+ spec + TLC model checking (refinement invariant); MBT via TLC -simulate replayed in lock-step; TLC trace validation incl. linearisation and interval search; Apalache inductive check (thorough)",
@@ -118,7 +118,7 @@ CLAIMS = {
                 "updater's Build/Store, Inherit/Close/Store, no-op apply, create/delete steps interleaved with request steps LoadInst/Route/GetHandler/RunFilter (in-flight Enter/Exit for Proxy). The clauses "
                 "Consistent, NoFailure, Available, Visibility, Isolation, Settled, NoOp are model-checked exhaustively at small bounds. TLC-generated schedules are replayed step by step on the real mux + "
                 "TrafficController + Pipelines + RateLimiter/Proxy, on the TrafficController alone, on bare filters, and on one-filter pipelines of every filter kind buildable offline. Pipeline generations are [filters version, resilience version] and updates change either or both; the configuration of the generation a request holds is observed on the real code (RateLimiter limit still enforced on the new generation after Close(prev); Proxy attempts = retry policy of the held generation) and compared with the invariants Configured / Limited. Stress histories of the "
-                "real mux/TrafficController/HTTPServer object, with concurrent requests against an updater, are validated by TLC against the model.",
+                "real mux/TrafficController/HTTPServer object, with concurrent requests against an updater, are validated by TLC against the model. Updates that only switch the policy a RateLimiter URL rule falls under are generated too; a second module, HotUpdateGF.tla, models GlobalFilter generations with optional before/after pipelines (keep / change / drop / add per update; Installed, Consistent, Visibility, Servable) and its schedules are replayed on real GlobalFilter objects through Inherit.",
         "note": "Inherit/Close shapes of stateful filters are observed on the real code and fed to the model; the harness stops requests and updates only at hook-free points; HTTP/3 is stubbed; Go scheduler "
                 "interleavings inside a step are explored by stress (+ -race in thorough), not exhaustively; WasmHost is not swept (build tag); the Kafka reproduction is timing-dependent",
         "technique": "TLA+ spec + TLC model checking; model-based schedule generation (TLC -simulate) replayed on the real code; TLC trace validation with linearisation search",
@@ -128,7 +128,7 @@ CLAIMS = {
                 "snapshot, independent of panics) model-checked with every clause as invariant/action property; an implementation-shaped model of ObjectRegistry.applyConfig, watcher events and both handlers "
                 "(LifecycleImpl) is checked to refine it; all canonical TLC-generated snapshot sequences (<= 2 snapshots x 3 names exhaustively, sampled length 3, scripted panics) are replayed on a real "
                 "Supervisor / RawConfigTrafficController / TrafficController fed through the mocked syncer and compared per step; seeded bursty 20-40-snapshot histories with panicking callbacks - bursts of 1-3 snapshots and bursts of 14-32 snapshots pushed while the watchers' handlers are held back by gated/slow callbacks (more outstanding events than the watcher channel buffers) - are validated "
-                "by TLC against the contract; the implementation model includes the bounded watcher channel (blocking send refines, dropping send rejected).",
+                "by TLC against the contract; the implementation model includes the bounded watcher channel (blocking send refines, dropping send rejected). Histories whose first 5-8 snapshots arrive while the supervisor is being created are validated against the contract's start-up clause (each group begins from the then-latest snapshot, then every snapshot counts); the implementation model has watcher registration as its own action (atomic registration refines, copy-then-register-later rejected).",
         "note": "callbacks observed through test-only kinds (spec equality = ver); the syncer itself is C19; order Close(old)/Init(new) of a kind change left free; the real Pipeline kind's separate store only modelled",
         "technique": "TLA+ spec + TLC model checking (refinement); exhaustive model-based test generation (tlc -dump/-simulate) replayed on real code; TLC trace validation",
     },
@@ -149,7 +149,7 @@ CLAIMS = {
                 "drives accepted ones through the real object's life-cycle under recover(), logging every call; TLC validates every recorded life-cycle against the automaton with "
                 "NoPanicAfterAccept and RuleRejected evaluated on each observed state; violations are minimised to kind + field classes + call + top repository frame.",
         "note": "one concrete value per class; requests = 26 HTTP classes incl. 12 paths derived from the configured paths (bare / trailing slash / extra segments / case / percent-encoded / no boundary) and 4 signature-bearing requests, 18 real-socket classes for HTTPServer, 6 resilience scenarios incl. open -> half-open -> closed -> open; TLC reports (kind, class) coverage and the run is inconclusive if a listed class was not sent; mocked cluster, local backends; KafkaMQTT/Kafka/RemoteFilter/CertExtractor validate-only; "
-                "WasmHost, MQTT-session filters, registries, ACME, mesh, tracing, HTTP/3 out of scope; 'does not panic' is observed (recover / process crash attributed to the call in flight), not predicted",
+                "WasmHost, MQTT-session filters, registries, ACME, mesh, tracing, HTTP/3 out of scope; 'does not panic' is observed (recover / process crash attributed to the call in flight), not predicted; request classes include requests whose context ends while they are served and a client aborting mid-body; enum-like string fields carry the value class \"valid value in another letter case\"",
         "technique": "TLA+ spec + TLC model checking; TLC as combinatorial generator (-dump / -simulate) of configurations driven on the real code; TLC trace validation of recorded life-cycles",
     },
     "C03": {
@@ -157,7 +157,7 @@ CLAIMS = {
                 "modelled on byte sequences); an implementation-shaped layer has one operator per stage mux -> RequestAdaptor -> prepareRequest/cloneHeader -> transport -> "
                 "compress -> FetchPayload -> ResponseAdaptor -> write-out, including retries, a pool memory cache (sequences of 3 identical requests; hit or miss both admitted, the answer must stay the backend's and well-framed), backend responses that break off (no complete decodable success may reach the client) and server URLs with / without port (IPv4, bracketed IPv6). TLC checks that the (repaired) model refines the contract over the full toggle "
                 "product and that each defect left in violates it. TLC-enumerated scenarios (-dump) are run as real exchanges over loopback sockets (real mux.ServeHTTP and Pipeline, "
-                "raw TCP backends, hand-framed client) and TLC evaluates the contract on every recorded exchange.",
+                "raw TCP backends, hand-framed client) and TLC evaluates the contract on every recorded exchange. A warm-up exchange followed by 2-4 requests in flight at the same time on one proxy instance (specs/ProxyMsgPar.tla: interleaved stage machine, each exchange faithful and answered as if alone; shared-compressor negative control); Content-Length of the bodiless answer to HEAD compared end-to-end; 304 responses; media type of response and request body rotating over 7 classes.",
         "note": "path 'unchanged' = equal after percent-decoding, raw query byte-equal; hop-by-hop removal judged by the client's values; gzip and sha256 computed in the harness; "
                 "host names only with a port; a broken backend response is judged only for status < 400; HTTP/2, HTTP/3, mirror pool, mTLS, 204/304 and non-gzip encodings outside the claim",
         "technique": "TLA+ spec + TLC model checking; model-based test generation (TLC -dump) run over sockets on the real code; TLC trace evaluation of the recordings",
@@ -165,7 +165,7 @@ CLAIMS = {
     "C07": {
         "text": "Limit selection and FetchPayload as a TLA+ step machine (specs/ProxyMsgLimit.tla) refine the body-limit contract (ProxyMsgDefs part 4) for both readings of the 4MB default; "
                 "all scenarios (2 directions x limit pairs x declared/chunked/close-delimited x sizes L-1, L, L+1, 4L, streams, lying lengths x route cache on/off with repeated identical requests (requests) x proxy compression on/off (responses)) run over sockets with real 4MB+-1 and 16MiB bodies "
-                "through the real mux and Proxy; TLC evaluates the contract on the recordings.",
+                "through the real mux and Proxy; TLC evaluates the contract on the recordings. The media type of the body is a scenario dimension (none / octet-stream / text / json / event-stream / grpc / multipart); a code model exempting a media type from the limit must violate the contract.",
         "note": "'4MB' read as the interval [4,000,000, 4,194,304]; a request with a lying Content-Length is recorded but not judged (not in the property text); explicit limits are scaled",
         "technique": "TLA+ spec + TLC model checking; model-based test generation (TLC -dump) run over sockets on the real code; TLC trace evaluation of the recordings",
     },
